@@ -4,7 +4,9 @@ import vf
 from vf import Case
 from props.c10 import hx, spec
 
-TYPES = {'@t': '"s"', '@u': '1', '@o': '{\n  "z": 1\n}'}
+TYPES = {'@t': '"s"', '@u': '1', '@o': '{\n  "z": 1\n}',
+         # recursive types: through an optional member, and through a type choice (used by C08's class `recursive`)
+         '@r': '{\n  "next": @r, // {optional: true}\n  "id": 1\n}', '@l': '{\n  "x": 1,\n  "next": @l | @u\n}'}
 RULES = {'@e': '["abc", 5, null]'}
 
 
